@@ -21,7 +21,14 @@ def run_check(prop: str, tier: str, overlay=None, quiet: bool = False):
   from vzstatic.source import Source
   mod = importlib.import_module(f'vzstatic.rules.{prop}')
   ctx = report.Ctx(prop, tier, Source(overlay=overlay))
-  mod.run(ctx)
+  try:
+    mod.run(ctx)
+  except AnalysisError as e:
+    # a rule gave up: what the rules before it established stands (violations are reported as such); without any
+    # violation the check ends as analysis-broken (finish() / vacuity() raise the deferred error), never as a pass
+    if not any(not o.ok and not o.info_only for o in ctx.obligations):
+      raise
+    ctx.deferred_error = str(e)
   return ctx
 
 
